@@ -1045,12 +1045,15 @@ class Translator:
             if p not in free:
                 continue
             if p == 'self':
-                if fields is None:
+                if fields is not None:
+                    used = {t.attr for s in stmts for t in ast.walk(s)
+                            if isinstance(t, ast.Attribute) and isinstance(t.value, ast.Name) and t.value.id == 'self'}
+                    self.classes['_self'] = {'fields': [(f, fs) for f, fs in fields if f in used]}
+                    sort = OBJ('_self')
+                elif cls_name in self.classes:
+                    sort = OBJ(cls_name)        # all declared fields; translated properties may be read
+                else:
                     raise self.bad(stmts[0], 'self is read but no field sorts are declared')
-                used = {t.attr for s in stmts for t in ast.walk(s)
-                        if isinstance(t, ast.Attribute) and isinstance(t.value, ast.Name) and t.value.id == 'self'}
-                self.classes['_self'] = {'fields': [(f, fs) for f, fs in fields if f in used]}
-                sort = OBJ('_self')
             else:
                 sort = sorts[p]
             env[p] = self.param_value(p, sort)
